@@ -174,6 +174,12 @@ def case_fix(run, i):
     if shuffled_in:
         tgt = tgt.iloc[rng.permutation(len(tgt))].reset_index(drop=True)
         ref = ref.iloc[rng.permutation(len(ref))].reset_index(drop=True)
+    if i % 3 == 1 and variant != 4:
+        # non-default row labels, as on filtered tables
+        tgt = tgt.set_axis(np.arange(len(tgt)) * 2 + 3)
+        ref = ref.set_axis(np.arange(len(ref)) * 3 + 1)
+        if len(anti):
+            anti = anti.set_axis(np.arange(len(anti)) * 2 + 4)
     run._tls.fix_meta = {"seed": int(rng.integers(0, 2 ** 31)), "permute": ["target", "antitarget", "reference"] if variant != 4 else [],
                          "scale": float(rng.choice([2.0 ** -6, 0.25, 3.0, 7.3, 64.0]))}
     try:
